@@ -372,7 +372,11 @@ def run_harnesses(scratch, hs, logdir, jobs=None):
     # second chance for harnesses that ran out of memory: alone, 40 GB, CaDiCaL (lighter than
     # MiniSat on memory); still out of memory => undecided
     retry = [r for r in results if r["status"] == "oom"]
-    if retry and not os.environ.get("VERIF_NO_RETRY"):
+    # (no point in retrying when a semantic obligation has already failed elsewhere: the run is a
+    # violation whatever the retried harnesses say)
+    already_violated = any(c["status"] == "FAILURE" and OBL_RE.match(c["desc"]) and not OBL_RE.match(c["desc"]).group(3)
+                           for r in results for c in r["checks"])
+    if retry and not already_violated and not os.environ.get("VERIF_NO_RETRY"):
         byname = {h["name"]: h for h in hs}
         for r in retry[:int(os.environ.get("VERIF_MAX_RETRY", "3"))]:
             h = dict(byname[r["harness"]])
